@@ -373,13 +373,14 @@ def observe_saved(job: Dict[str, Any], work: Path) -> Dict[str, Any]:
             if k % every == 0:
                 fp, mut = state_fp(rp.s)
                 mutable_seen.update(mut)
-                saved.append({"k": k, "rp": rp, "fp": fp})
+                saved.append({"k": k, "rp": rp, "fp": fp, "first": None})
                 # the same retained state stepped twice with the same (deterministic) controller
                 take_reports()
                 s1, _ = rp.u.step_update.update(rp.s, rp.e)
                 r1 = take_reports()
                 s2, _ = rp.u.step_update.update(rp.s, rp.e)
                 r2 = take_reports()
+                saved[-1]["first"] = {"state": [[a, b] for a, b in sorted(full_state(s1, rp.e).items())], "reports": r1}
                 lines.append({"k": "twice", "prop": "C16", "clause": "same_result_twice", "scen": job["id"], "i": k, "labels": ["first", "second"],
                               "vals": [{"state": [[a, b] for a, b in sorted(full_state(s1, rp.e).items())], "reports": r1},
                                        {"state": [[a, b] for a, b in sorted(full_state(s2, rp.e).items())], "reports": r2}]})
@@ -416,6 +417,13 @@ def observe_saved(job: Dict[str, Any], work: Path) -> Dict[str, Any]:
             fp_now, _ = state_fp(sv["rp"].s)
             lines.append({"k": "reread_at_end", "prop": "C16", "clause": "saved_state_unchanged", "scen": job["id"], "i": sv["k"],
                           "labels": ["when_saved", "at_end"], "vals": [{"state": sv["fp"], "reports": []}, {"state": fp_now, "reports": []}]})
+            # ... and stepping the retained state once more, after everything that happened since, gives what it gave then
+            take_reports()
+            s_again, _ = sv["rp"].u.step_update.update(sv["rp"].s, sv["rp"].e)
+            r_again = take_reports()
+            lines.append({"k": "again_at_end", "prop": "C16", "clause": "same_result_twice", "scen": job["id"], "i": sv["k"],
+                          "labels": ["when_saved", "at_end"],
+                          "vals": [sv["first"], {"state": [[a, b] for a, b in sorted(full_state(s_again, sv["rp"].e).items())], "reports": r_again}]})
     finally:
         verif_hooks.install(None)
     return {"id": job["id"], "label": job["label"], "lines": lines, "mutable": sorted(mutable_seen), "saved": len(saved)}
